@@ -95,7 +95,7 @@ theorem polygonInit_eq (outline : List Pos) (holes : List HoleSrc) (dt : Option 
       | some b => exact ⟨b, rfl⟩
     have hne : ∀ l : List Pos, isCounterClockwise rt (v :: l) = .ok (isCCW ((v :: l).map Pos.pt)) := fun l => by
       rw [isCounterClockwise_eq]
-    simp only [polygonInit, Py.getIdx, Py.getLast_eq, hb, mkOutlineP, closeRingP, List.head?_cons, List.isEmpty_cons,
+    simp only [polygonInit, Py.getIdx, Py.getLast, hb, mkOutlineP, closeRingP, List.head?_cons, List.isEmpty_cons,
       List.cons_append, hne, coordEq_eq]
     by_cases h : v = b <;> cases isHole <;> simp [h] <;> split <;> simp_all
 
@@ -110,7 +110,7 @@ theorem polygonInitDefault_eq (outline : List Pos) : polygonInitDefault rt outli
       | some b => exact ⟨b, rfl⟩
     have hne : ∀ l : List Pos, isCounterClockwise rt (v :: l) = .ok (isCCW ((v :: l).map Pos.pt)) := fun l => by
       rw [isCounterClockwise_eq]
-    simp only [polygonInitDefault, Py.getIdx, Py.getLast_eq, hb, mkOutlineP, closeRingP, List.head?_cons, List.isEmpty_cons,
+    simp only [polygonInitDefault, Py.getIdx, Py.getLast, hb, mkOutlineP, closeRingP, List.head?_cons, List.isEmpty_cons,
       List.cons_append, hne, coordEq_eq]
     by_cases h : v = b <;> simp [h] <;> split <;> simp_all
 
